@@ -34,14 +34,17 @@ fn expand_brace_expr_member(bem: word::BraceExpressionMember) -> Box<dyn Iterato
             start,
             end,
             increment,
+            width,
         } => {
+            // Zero-pads to the requested width (the sign counts toward it).
+            let format_term = move |n: i64| std::format!("{n:0width$}");
             let mut increment = increment.unsigned_abs() as usize;
             if increment == 0 {
                 increment = 1;
             }
 
             if start <= end {
-                Box::new((start..=end).step_by(increment).map(|n| n.to_string()))
+                Box::new((start..=end).step_by(increment).map(format_term))
             } else {
                 // Iterate from start down to end by decrementing.
                 #[allow(clippy::cast_possible_wrap)]
@@ -51,7 +54,7 @@ fn expand_brace_expr_member(bem: word::BraceExpressionMember) -> Box<dyn Iterato
                         let next = n - increment;
                         (next >= end).then_some(next)
                     })
-                    .map(|n| n.to_string()),
+                    .map(format_term),
                 )
             }
         }
